@@ -164,3 +164,39 @@ Example strip_vendor_laws_nonvacuous :
   strip_vendor "a/vendor/b/vendor/golang.org/x/net/idna" = "golang.org/x/net/idna" /\
   strip_vendor "vendorx/y" = "vendorx/y" /\ strip_vendor "x/vendor" = "x/vendor".
 Proof. vm_compute. repeat split. Qed.
+
+(* ---- consequences for fileDecorator.resolvePath (Model.Resolvers.resolve_path), all inputs ---- *)
+
+(* the path stored on an identifier never contains a vendor directory *)
+Theorem resolve_path_is_vendor_free force local rl pf raw :
+  strip_vendor (resolve_path force local rl pf raw) = resolve_path force local rl pf raw.
+Proof.
+  unfold resolve_path. destruct (negb force && in_avoid pf); [reflexivity|]. cbv zeta.
+  destruct (negb rl && String.eqb (strip_vendor raw) (strip_vendor local)); [reflexivity|].
+  apply strip_vendor_idempotent.
+Qed.
+
+(* vendoring the decorated package, or the package referred to, changes no assignment *)
+Theorem resolve_path_is_vendor_blind force local rl pf raw :
+  resolve_path force local rl pf raw = resolve_path force (strip_vendor local) rl pf (strip_vendor raw).
+Proof. unfold resolve_path. rewrite !strip_vendor_idempotent. reflexivity. Qed.
+
+(* without ResolveLocalPath the decorated package's own path is never stored *)
+Theorem resolve_path_never_stores_the_local_path force local pf raw :
+  resolve_path force local false pf raw = strip_vendor local -> resolve_path force local false pf raw = "".
+Proof.
+  unfold resolve_path. destruct (negb force && in_avoid pf); [reflexivity|]. cbv zeta. cbn [negb andb].
+  destruct (String.eqb_spec (strip_vendor raw) (strip_vendor local)) as [_|Hne]; [reflexivity|].
+  intros H. contradiction.
+Qed.
+
+(* with ResolveLocalPath every resolved reference keeps its (vendor-free) path, local or not *)
+Theorem resolve_path_with_local_paths force local pf raw :
+  (negb force && in_avoid pf) = false -> resolve_path force local true pf raw = strip_vendor raw.
+Proof. intros H. unfold resolve_path. rewrite H. reflexivity. Qed.
+
+Example resolve_path_laws_nonvacuous :
+  resolve_path false "root/vendor/root/a" false "CallExpr.Fun" "root/a" = "" /\
+  resolve_path false "root/a" false "CallExpr.Fun" "root/vendor/golang.org/x/b" = "golang.org/x/b" /\
+  resolve_path false "root/a" true "CallExpr.Fun" "root/a" = "root/a".
+Proof. vm_compute. repeat split. Qed.
